@@ -26,7 +26,16 @@ def check(rep, tier, seed):
     quick = tier == "quick"
     nenc = 64 if quick else 1500
     specs, metas = [], []
+    # fixed managed encodes (average only / average + generous maximum, noise and tones, no control settings): every run
+    # exercises the packet selection of the bitrate manager on enough packets, whatever the seed
+    FIXED = [(1, 22050, -1, 32000, -1, 1), (2, 44100, -1, 128000, -1, 1), (6, 48000, -1, 256000, -1, 2), (2, 44100, 256000, 96000, -1, 1)]
     for k in range(nenc):
+        if k < len(FIXED):
+            ch, rate, mx, nom, mn, sig = FIXED[k]
+            n = 20000
+            specs.append("%d %d %d 1 %d %d %d %d %d %d %d" % (k, ch, rate, mx, nom, mn, n, sig, 12345 + k, 0))
+            metas.append({"case": k, "ch": ch, "rate": rate, "managed": [mx, nom, mn], "samples": n, "signal": sig, "ctl": 0, "fixed": True})
+            continue
         ch, rate = rng.choice(CONFIGS)
         if ch == 255 and rng.below(4):
             ch, rate = 2, 44100
@@ -75,7 +84,7 @@ def check(rep, tier, seed):
                 if l.startswith("einfo "):
                     einfo[cur].append(l)
                 elif l:
-                    body.append(l)
+                    body.append(l + " e" if l.startswith("pkt ") else l)      # "e": ask the model whether the packet is cut short
                     if l == "end":
                         texts.append("\n".join(body) + "\n")
                         cur = None
@@ -118,6 +127,20 @@ def check(rep, tier, seed):
         if "init 0" not in li:
             bad_prop.append({"kind": "vorbis_synthesis_init failed on the encoder's headers", "case": k, "meta": m, "cases_file": cf_})
         pk = [l.split() for l in li if l.startswith("pkt ")]
+        # packets that end before their data does (model decode with zero padding reads further): only a configured hard
+        # maximum may cut a packet short
+        eops = [l.split()[1] for l in res["model"].get(k, []) if l.startswith("eop ")]
+        okpk = [j for j, t in enumerate(pk) if t[1] == "OK"]
+        if len(eops) == len(okpk):
+            for j, e in zip(okpk, eops):
+                if e == "1":
+                    if hardmax:
+                        dist["packets_cut_short_under_hard_max"] = dist.get("packets_cut_short_under_hard_max", 0) + 1
+                    else:
+                        bad_prop.append({"kind": "audio packet %d ends before its data does although no hard maximum is configured (decoding it with zero "
+                                                 "padding appended reads beyond its length)" % j, "case": k, "meta": m, "cases_file": cf_})
+        elif eops or okpk:
+            bad_prop.append({"kind": "internal: %d end-of-packet verdicts for %d decoded packets" % (len(eops), len(okpk)), "case": k, "meta": m, "cases_file": cf_})
         blocks = [l.split() for l in ei if l.startswith("einfo block")]
         for j, t in enumerate(pk):
             dist["packets"] += 1
